@@ -506,12 +506,16 @@ func ruleR12fInto(h *H, rule string) {
 	cbs := h.P.CallsIn(f, cbOnDelEntry)
 	if len(cbs) == 0 {
 		// the per-entry step may be a local closure of f that is called in place
+		var cands []*ssa.Function
 		for _, g := range h.P.Funcs {
-			if g.Parent() != f {
-				continue
+			if g.Parent() == f {
+				cands = append(cands, g)
 			}
+		}
+		cands = append(cands, helperFuncs(f)[1:]...)
+		for _, g := range cands {
 			for _, c := range h.P.CallsIn(g, cbOnDelEntry) {
-				if up := liftThroughLocalClosure(c); up != c && up.Parent() == f {
+				if up := liftThroughLocalClosure(c, func(fn *ssa.Function) bool { return fn == f }); up != c && up.Parent() == f {
 					cbs = append(cbs, up)
 					h.Fn(ir.FuncName(g))
 				}
